@@ -154,6 +154,12 @@ inline Circuit genCircuit(Rng &r, const GenOpts &o, GenInfo *info = nullptr) {
     long long target = std::max<long long>(unit, (long long)(avgArea * r.real(0.3, 1.7)) / ph);
     int pw = (int)std::min<long long>(std::max<long long>(1, target / unit) * unit, (long long)W);
     if (pw <= 0) pw = unit;
+    bool narrowTurned = false;
+    if (o.turned && rowsHigh > 1 && r.chance(0.3)) {
+      // a turned multi-row cell whose unrotated height equals the row height
+      pw = H;
+      narrowTurned = true;
+    }
     CellRowPolarity p = CellRowPolarity::ANY;
     if (o.polar && r.chance(0.4)) {
       if (r.chance(0.8)) {
@@ -170,6 +176,7 @@ inline Circuit genCircuit(Rng &r, const GenOpts &o, GenInfo *info = nullptr) {
     if (p == CellRowPolarity::ANY) {
       oc = (o.turned && r.chance(0.3)) ? r.pick(all8) : r.pick(unturned);
       if (r.chance(0.5)) oc = CellOrientation::N;
+      if (narrowTurned) oc = r.pick(std::vector<CellOrientation>{CellOrientation::W, CellOrientation::E, CellOrientation::FW, CellOrientation::FE});
     } else {
       oc = r.pick(unturned);
     }
